@@ -671,8 +671,8 @@ def gen_restakker_case(rng, name, props):
     if rng.random() < 0.5:
         ops1.append({"op": "drop_stakker"})
         # post-mortem: handles deferring into the void
-        for _ in range(rng.randrange(0, 3)):
-            ops1.append({"op": "defer", "via": "deferrer", "item": {"id": 900 + rng.randrange(50), "ops": []}})
+        for k in range(rng.randrange(0, 3)):
+            ops1.append({"op": "defer", "via": "deferrer", "item": {"id": 900 + k, "ops": []}})
     second = FAMILIES[rng.choice(["a", "q"])](rng, name, props)
     ops2 = _remap(second["ops"], 1000)
     return {"case": name, "props": props, "acyclic": False, "ops": ops1 + [{"op": "restakker"}] + ops2}
